@@ -1,4 +1,4 @@
 # sourced by the scripts in this directory: offline Go toolchain for the checker
 export PATH=/opt/veriftools/go1.26.8/bin:$PATH
-export GOFLAGS=-mod=mod GOPROXY=off GOSUMDB=off GOTOOLCHAIN=local GONOSUMCHECK=1 GONOSUMDB=* GOFLAGS=-mod=mod
+export GOFLAGS=-mod=mod GOPROXY=off GOSUMDB=off GOTOOLCHAIN=local GONOSUMCHECK=1 GONOSUMDB=*
 unset GOWORK
